@@ -16,19 +16,22 @@ a = s.index("| id | property | status | commit | what failed |")
 b = s.index("Open findings and why they are recorded")
 s = s[:a] + tbl + "\n" + s[b:]
 seeds = "| seed | needs to manifest | caught by |\n|---|---|---|\n"
-n = first = 0
+n = first = obl_only = 0
 for d in sorted(glob.glob(os.path.join(V, "seeded", "*"))):
     m = json.load(open(os.path.join(d, "meta.json")))
     det = (m.get("detected_by_check") or "")
     n += 1
     first += det.startswith("yes")
+    obl_only += det.startswith("reported as broken obligation only")
     seeds += f"| {os.path.basename(d)} | {(m.get('needs_to_manifest') or '').replace('|', '/')} | ./check {m['property']}: {det.replace('|', '/')} |\n"
 a = s.index("| seed | needs to manifest | caught by |")
 b = s.index("\nOf the ", a)
 e = s.index("\n\n", b + 2)
 para = (f"\nOf the {n} seeds, {first} were caught on the first run and {n - first} were at first missed or reported only as a broken "
         "obligation\nwithout a failing input; each of those led to a generator or oracle extension that is now part of the check "
-        "(listed\nin the table), after which all of them are reported with a concrete failing input. One sub-agent (C01) "
+        "(listed\nin the table), after which all of them are reported with a concrete failing input" +
+        (f" — except {obl_only} (C07-3) that stays a broken proof obligation without failing input, because no input violates the statement as written (see its row)" if obl_only else "") +
+        ". One sub-agent (C01) "
         "additionally\nexhibited a defect of the UNCHANGED tree that the hostile-input generator had not reached (D45); the "
         "generator was\nextended until the check found it on its own, and only then was it repaired.")
 s = s[:a] + seeds + para + s[e:]
